@@ -68,7 +68,14 @@ def build_case(r, idx):
     def rand_doc():
         k = r.randrange(5)
         if k <= 2:
-            return {r.choice(keys): rand_json(r) for _ in range(r.randrange(0, 4))}
+            d = {r.choice(keys): rand_json(r) for _ in range(r.randrange(0, 4))}
+            if r.randrange(6) == 0:
+                # an input OBJECT is a set of named inputs whatever its keys are called - also when one of them is the key
+                # that marks a function object one level further down
+                items = list(d.items())
+                items.insert(r.randrange(len(items) + 1), ("__blots_function", r.choice(["max", "(x) => x + 1", "not source", 5])))
+                d = dict(items)
+            return d
         if k == 3:
             return [rand_json(r, 1) for _ in range(r.randrange(0, 3))]
         return r.choice([5, "s", True, None, 2.5])
